@@ -56,6 +56,7 @@ type ruCfg struct {
 	KeyFile       bool     `json:"key_file"`
 	Qps           int      `json:"qps"`          // 0: effectively unlimited
 	ScanLullMs    int      `json:"scan_lull_ms"` // the source takes this long to answer its second SCAN (a lull in which the QoS bucket fills up)
+	FaultKey      string   `json:"fault_key"`    // the target refuses the RESTORE of this key (OOM): the run must not end as a success
 	BlankAt       []int    `json:"blank_at"`     // key file: an empty line (the name of a key that does not exist) before the line with this index
 	TargetVersion string   `json:"target_version"`
 }
@@ -203,6 +204,22 @@ func ruRun(in []byte) (interface{}, error) {
 				return mredis.HookResult{}
 			})
 		}
+		faultFired := false
+		if c.Cfg.FaultKey != "" {
+			tgt.SetHook(func(conn, db int, cmd string, args [][]byte) mredis.HookResult {
+				if cmd == "RESTORE" && len(args) > 0 && string(args[0]) == c.Cfg.FaultKey {
+					mu.Lock()
+					first := !faultFired
+					faultFired = true
+					mu.Unlock()
+					if first {
+						r := mredis.Err("OOM command not allowed when used memory > 'maxmemory'.")
+						return mredis.HookResult{Override: &r}
+					}
+				}
+				return mredis.HookResult{}
+			})
+		}
 		// ---- configuration
 		conf.Options.SourceAddressList = saddrs
 		conf.Options.TargetAddressList = []string{taddr}
@@ -265,10 +282,25 @@ func ruRun(in []byte) (interface{}, error) {
 			close(doneCh)
 		}()
 		hung := false
-		select {
-		case <-doneCh:
-		case <-time.After(time.Duration(25+len(c.Keys)/maxInt(1, c.Cfg.Qps)) * time.Second):
-			hung = true
+		limit := time.After(time.Duration(25+len(c.Keys)/maxInt(1, c.Cfg.Qps)) * time.Second)
+	wait:
+		for {
+			select {
+			case <-doneCh:
+				break wait
+			case <-limit:
+				hung = true
+				break wait
+			case <-time.After(100 * time.Millisecond):
+				// a goroutine of the command stopped on log.Panic (the tool would have exited): the others wait for it for ever
+				if c.Cfg.FaultKey != "" {
+					if a := takeAborts(); len(a) > 0 {
+						ab = &a[0]
+						hung = true
+						break wait
+					}
+				}
+			}
 		}
 		wall := time.Since(t0)
 		errText := ""
@@ -348,7 +380,7 @@ func ruRun(in []byte) (interface{}, error) {
 			jkeys = append(jkeys, map[string]interface{}{"id": k.Id, "src": k.Src, "db": k.Db, "pre": preSet[fmt.Sprintf("%d/%s", tdbOf(k.Db), k.Name)], "vanish": k.Vanish, "ttl": k.TtlMs > 0, "scanned": k.Scanned, "passes": k.Passes})
 		}
 		tr.Emit(tracer.Ev{"e": "rcase", "case": c.Id, "keys": jkeys, "scans": scans, "tdb": c.Cfg.Tdb, "sources": c.Sources, "key_exists": c.Cfg.KeyExists})
-		tr.Emit(tracer.Ev{"e": "rend", "case": c.Id, "finished": finished, "hung": hung, "err": errText, "target": target, "foreign": foreign,
+		tr.Emit(tracer.Ev{"e": "rend", "case": c.Id, "finished": finished, "hung": hung, "err": errText, "target": target, "foreign": foreign, "fault_fired": faultFired,
 			"expanded_cmds": expanded, "wall_ms": int(wall / time.Millisecond)})
 		if !hung {
 			for _, s := range srcs {
